@@ -682,7 +682,6 @@ func replayC09(r *core.Run, path string) {
 	_ = filepath.Join
 }
 
-
 var obsSelfTested bool
 
 // obsSelfTest demonstrates the binding once per run: in an accepted execution the version seen on disk after an
